@@ -166,7 +166,7 @@ var menuCache = map[string][]Query{}
 
 // menuFor returns the queries evaluated after the history. The menu is the product
 //
-//	select lists x ranges x intervals {storage, 20s, 1m} x condition {none, host='a'} x group by {none, host}
+//	select lists x ranges x intervals {storage, 20s, 1m} x condition {none, host='a', host='b'} x group by {none, host}
 //
 // restricted to what the history can distinguish:
 //   - the ranges that reach into the second family are only used when the history wrote into it;
@@ -198,10 +198,13 @@ func menuFor(c Case) []Query {
 		return q
 	}
 	multi, single, all := selectLists()
-	type cg struct{ cond, gb bool }
-	cgs := []cg{{false, false}, {true, true}}
+	type cg struct {
+		cond string
+		gb   bool
+	}
+	cgs := []cg{{"", false}, {"a", true}}
 	if twoSeries {
-		cgs = []cg{{false, false}, {false, true}, {true, false}, {true, true}}
+		cgs = []cg{{"", false}, {"", true}, {"a", false}, {"a", true}, {"b", false}, {"b", true}}
 	}
 	rs := []int{0, 2}
 	if twoFam {
@@ -227,8 +230,8 @@ func menuFor(c Case) []Query {
 		sr = 1
 	}
 	for _, sl := range single {
-		out = append(out, Query{Sels: sl, Range: sr, Ivl: 0, Cond: true, GB: false})
-		out = append(out, Query{Sels: sl, Range: sr, Ivl: 1, Cond: false, GB: true})
+		out = append(out, Query{Sels: sl, Range: sr, Ivl: 0, Cond: "a", GB: false})
+		out = append(out, Query{Sels: sl, Range: sr, Ivl: 1, Cond: "", GB: true})
 	}
 	menuCache[key] = out
 	return out
